@@ -16,7 +16,9 @@ SEARCHERS = {
     "C10": {"file": "search/codec.rs", "mode": "append", "target": "src/cabac_codec.rs"},
     "C08": {"file": "search/header.rs", "mode": "append", "target": "src/preflate_parameter_estimator.rs"},
     "C07": {"file": "search/deflate.rs", "mode": "append", "target": "src/process.rs"},
-    "C03": {"file": "search/deflate.rs", "mode": "append", "target": "src/process.rs"},
+    "C03": {"file": "search/deflate.rs", "mode": "append", "target": "src/process.rs", "env": {"VERIF_SEARCH": "c03"}},
+    "C05": {"file": "search/deflate.rs", "mode": "append", "target": "src/process.rs", "env": {"VERIF_SEARCH": "c05"}},
+    "C02": {"file": "search/deflate.rs", "mode": "append", "target": "src/process.rs", "env": {"VERIF_SEARCH": "c02"}},
 }
 
 
@@ -53,8 +55,9 @@ def run_search(prop, timeout=1500):
             rc = p.returncode
         except subprocess.TimeoutExpired as e:
             out = "TIMEOUT"; rc = -9
-        found = [l[l.index("FAILING-INPUT"):] for l in out.split("\n") if "FAILING-INPUT" in l]
-        done = [l[l.index("SEARCH-DONE"):] for l in out.split("\n") if "SEARCH-DONE" in l]
+        # (compiler diagnostics quote source lines: those contain the println! call itself and are not output)
+        found = [l[l.index("FAILING-INPUT"):] for l in out.split("\n") if "FAILING-INPUT" in l and "println!" not in l and "{:?}" not in l]
+        done = [l[l.index("SEARCH-DONE"):] for l in out.split("\n") if "SEARCH-DONE" in l and "println!" not in l and "{}" not in l]
         res = {"searcher": sp["file"], "cmd": " ".join(cmd), "env": sp.get("env", {}), "rc": rc, "wall_s": round(time.time() - t0, 1),
                "failing_input": found[0][:20000] if found else None, "completed": bool(done),
                "output_tail": out[-1500:] if (found or not done) else done[0]}
